@@ -6,8 +6,9 @@ All theorems quantify over every handler behaviour (any `List Op`: header edits,
 in pieces, Flush, panic), every ErrFunc / ErrorEncoder behaviour (`errOps`, any op lists), every verdict function
 of response validation, strict and non-strict, both transports, and — section "histories" — every sequence of
 requests through one middleware instance.
-Hypotheses that occur: `ValidCodes` (the handler's own WriteHeader codes are ones net/http accepts) and `NoPanic`
-where a statement is about a delivered response. Finding F-C14-2 (informational codes) is repaired: no exclusion.
+Hypotheses that occur: `EffCodeOK` (the status code the handler fixed is one net/http accepts; `ValidCodes` — all its
+WriteHeader codes are — only where a statement compares with a direct run) and `NoPanic` where a statement is about a
+delivered response. `middleware_meets_spec_total` and `every_request_of_a_history_meets_spec` have no hypothesis. Finding F-C14-2 (informational codes) is repaired: no exclusion.
 -/
 import KinModel.Middleware
 import KinModel.MiddlewareSrc
@@ -48,7 +49,7 @@ theorem strict_records (c : Client) (ops : List Op) :
 /-- **strict_valid_response_exact.** After flushBodyContents the client holds exactly the status the handler
 wrote (200 when it never called WriteHeader/Write with a final code; informational codes fix nothing — finding
 F-C14-2 is repaired) and exactly the bytes it wrote, and the client's writer did not panic. Both transports. -/
-theorem strict_valid_response_exact (server : Bool) (ops : List Op) (hv : ValidCodes ops) (hn : NoPanic ops) :
+theorem strict_valid_response_exact (server : Bool) (ops : List Op) (hv : EffCodeOK ops) (hn : NoPanic ops) :
     (Strict.run { client := Client.init server } ops).flushOut.seen = ⟨(handlerStatus server ops).getD 200, written ops⟩ ∧
     (Strict.run { client := Client.init server } ops).flushOut.panicked = false := by
   rw [strict_run_eq]
@@ -63,13 +64,13 @@ theorem strict_valid_response_exact (server : Bool) (ops : List Op) (hv : ValidC
   | none =>
     simp [Strict.flushOut, Client.write, Client.writeHeader, Client.seen, hs, hb, hp, validCode_200, isInfo_200]
   | some n =>
-    have hn' : validCode n = true := firstStatus_valid true false ops hv n hw
+    have hn' : validCode n = true := hv n hw
     have hni : isInfo n = false := wroteStatus_notInfo ops n hw
     simp [Strict.flushOut, Client.write, Client.writeHeader, Client.seen, hs, hb, hp, hn', hni]
 
 /-- In strict mode the header map is snapshotted only at flush time: every header edit of the handler — also
 those made after its WriteHeader/Write — is part of what the client receives. -/
-theorem strict_headers_delivered (server : Bool) (ops : List Op) (hv : ValidCodes ops) (hn : NoPanic ops) :
+theorem strict_headers_delivered (server : Bool) (ops : List Op) (hv : EffCodeOK ops) (hn : NoPanic ops) :
     (Strict.run { client := Client.init server } ops).flushOut.sent = finalHdr ops := by
   rw [strict_run_eq]
   obtain ⟨⟨_, h1, _, _, h3⟩, _, _⟩ := core_foldl_hdrStep (Client.init server) ops hn
@@ -83,7 +84,7 @@ theorem strict_headers_delivered (server : Bool) (ops : List Op) (hv : ValidCode
   cases hw : wroteStatus ops with
   | none => simp [Strict.flushOut, Client.write, Client.writeHeader, hs, hp, validCode_200, isInfo_200]
   | some n =>
-    have hn' : validCode n = true := firstStatus_valid true false ops hv n hw
+    have hn' : validCode n = true := hv n hw
     have hni : isInfo n = false := wroteStatus_notInfo ops n hw
     simp [Strict.flushOut, Client.write, Client.writeHeader, hs, hp, hn', hni]
 
@@ -92,7 +93,7 @@ theorem strict_headers_delivered (server : Bool) (ops : List Op) (hv : ValidCode
 theorem strict_exact_vs_direct_partial (server : Bool) (ops : List Op) (hv : ValidCodes ops) (hn : NoPanic ops)
     (hrec : informational (!server) ops = false) (hf : ∀ op ∈ ops, op ≠ Op.flush) :
     (Strict.run { client := Client.init server } ops).flushOut.seen = (runDirect (Client.init server) ops).seen := by
-  rw [(strict_valid_response_exact server ops hv hn).1]
+  rw [(strict_valid_response_exact server ops (effCodeOK_of_validCodes ops hv) hn).1]
   obtain ⟨h1, h2⟩ := runDirect_status_body (Client.init server) ops rfl hv hn
   have h1' : (runDirect (Client.init server) ops).status = firstStatus server true ops := by
     simpa [Client.init] using h1
@@ -240,7 +241,7 @@ theorem strict_invalid_response_replaced (cfg : Cfg) (env : Env) (ops : List Op)
 
 /-- Strict mode, response validation passes: the client gets the handler's status and bytes, ErrFunc is not
 called, nothing is logged. -/
-theorem strict_valid_response_delivered (cfg : Cfg) (env : Env) (ops : List Op) (hv : ValidCodes ops)
+theorem strict_valid_response_delivered (cfg : Cfg) (env : Env) (ops : List Op) (hv : EffCodeOK ops)
     (hn : NoPanic ops)
     (hs : cfg.strict = true) (hr : env.routeFound = true) (hq : env.reqOK = true)
     (hok : env.respOK (validatedStatus (Strict.run { client := Client.init env.server } ops).status)
@@ -288,10 +289,10 @@ theorem meetsB_iff (o : Outcome) (s : SpecOut) : meetsB o s = true ↔ Meets o s
   cases s.full <;> simp [and_assoc]
 
 /-- **middleware_meets_spec.** The model of the middleware meets the specification of the property for every
-configuration, environment, transport and handler with acceptable status codes — panicking handlers and
-informational responses included (full strength: the former exclusion `informational`, finding F-C14-2, is
-repaired). -/
-theorem middleware_meets_spec (cfg : Cfg) (env : Env) (ops : List Op) (hv : ValidCodes ops) :
+configuration, environment, transport and handler whose effective status code is one net/http accepts — panicking
+handlers, informational responses and ignored later WriteHeader calls with any code included. The remaining
+handlers are covered by `strict_refused_code_never_delivered`; `middleware_meets_spec_total` has no hypothesis. -/
+theorem middleware_meets_spec (cfg : Cfg) (env : Env) (ops : List Op) (hv : EffCodeOK ops) :
     Meets (middleware cfg env ops) (spec cfg env ops) := by
   cases hr : env.routeFound with
   | false => simp [Meets, middleware, spec, hr]
@@ -312,6 +313,7 @@ theorem middleware_meets_spec (cfg : Cfg) (env : Env) (ops : List Op) (hv : Vali
       simp [Meets, spec, hr, hq, hs, hpan, h3, p1, p5, p6]
     | false =>
     have hn : NoPanic ops := (panics_false_iff ops).mp hpan
+    have hbc : badCode ops = false := (badCode_false_iff ops).mpr hv
     obtain ⟨r1, r2, r3⟩ := strict_records (Client.init env.server) ops
     have hh : (Strict.run { client := Client.init env.server } ops).client.hdr = finalHdr ops := by
       rw [strict_client_during_handler]
@@ -326,7 +328,7 @@ theorem middleware_meets_spec (cfg : Cfg) (env : Env) (ops : List Op) (hv : Vali
       rw [hst]
       cases hw : wroteStatus ops with
       | some n =>
-        have hn' : validCode n = true := firstStatus_valid true false ops hv n hw
+        have hn' : validCode n = true := hv n hw
         have hn0 : n ≠ 0 := by intro h0; rw [h0] at hn'; exact absurd hn' (by decide)
         simp [validatedStatus, hn0]
       | none => simp [validatedStatus]
@@ -334,10 +336,101 @@ theorem middleware_meets_spec (cfg : Cfg) (env : Env) (ops : List Op) (hv : Vali
     | true =>
       obtain ⟨d1, d4, d2, _⟩ :=
         strict_valid_response_delivered cfg env ops hv hn hs hr hq (hverdict.trans hval)
-      simp [Meets, spec, hr, hq, hs, hpan, hval, h3, d1, d2, d4]
+      simp [Meets, spec, hr, hq, hs, hpan, hbc, hval, h3, d1, d2, d4]
     | false =>
       obtain ⟨d1, _, d2, d3, _⟩ := strict_invalid_response_replaced cfg env ops hn hs hr hq (hverdict.trans hval)
-      simp [Meets, spec, hr, hq, hs, hpan, hval, h3, d1, d2, d3]
+      simp [Meets, spec, hr, hq, hs, hpan, hbc, hval, h3, d1, d2, d3]
+
+/-- **strict_refused_code_never_delivered.** Strict mode, the handler fixes a status code net/http refuses (against
+the raw writer that call would panic; the strict wrapper records it and the handler goes on writing): whatever
+response validation says about what was recorded, the client is shielded — either it gets exactly ErrFunc's answer,
+or the middleware's flush panics on the code and nothing at all is on the wire. No byte of the handler arrives. -/
+theorem strict_refused_code_never_delivered (cfg : Cfg) (env : Env) (ops : List Op) (hn : NoPanic ops)
+    (hbad : badCode ops = true) (hs : cfg.strict = true) (hr : env.routeFound = true) (hq : env.reqOK = true) :
+    Dead (middleware cfg env ops) ∨
+    ((middleware cfg env ops).client.seen = (runDirect (Client.init env.server) (cfg.errOps .responseInvalid)).seen ∧
+     (middleware cfg env ops).client.panicked = (runDirect (Client.init env.server) (cfg.errOps .responseInvalid)).panicked ∧
+     (middleware cfg env ops).errCalls = [.responseInvalid] ∧ (middleware cfg env ops).handlerRan = true) := by
+  have h3 := (handler_iff_route_and_valid cfg env ops).mpr ⟨hr, hq⟩
+  cases hv : env.respOK (validatedStatus (Strict.run { client := Client.init env.server } ops).status)
+              (Strict.run { client := Client.init env.server } ops).client.hdr
+              (Strict.run { client := Client.init env.server } ops).buf with
+  | false =>
+    obtain ⟨d1, _, d2, d3, _⟩ := strict_invalid_response_replaced cfg env ops hn hs hr hq hv
+    exact Or.inr ⟨d1, d2, d3, h3⟩
+  | true =>
+    left
+    obtain ⟨⟨h0, h1, hi, h2, hp⟩, hsent, _⟩ := core_foldl_hdrStep (Client.init env.server) ops hn
+    have hpf : (Strict.run { client := Client.init env.server } ops).client.panicked = false := by
+      rw [strict_client_during_handler]; exact hp
+    unfold badCode at hbad
+    cases hw : wroteStatus ops with
+    | none => simp [hw] at hbad
+    | some n =>
+      simp only [hw, Bool.not_eq_true'] at hbad
+      have hmw : (middleware cfg env ops) =
+          { handlerRan := true, client := (Strict.run { client := Client.init env.server } ops).flushOut,
+            errCalls := [], logs := [] } := by
+        simp only [middleware, hs, hr, hq, hv, hpf]
+        simp
+      rw [hmw, strict_run_eq]
+      generalize hc : ops.foldl hdrStep (Client.init env.server) = c at *
+      have hs' : c.status = none := h1
+      have hb : c.body = [] := h2
+      have hi' : c.info = [] := hi
+      have hse : c.sent = [] := hsent
+      have hp' : c.panicked = false := hp
+      simp [Dead, Strict.flushOut, Client.write, Client.writeHeader, Client.seen, hw, hs', hb, hi', hse, hp', hbad]
+
+/-- both outcomes of `strict_refused_code_never_delivered` occur: WriteHeader(0) then a body — validated as a 200
+response: documented → the flush panics on the code, nothing is on the wire; not documented → the server error -/
+example :
+    let ops : List Op := [.writeHeader 0, .write ['1']]
+    badCode ops = true ∧
+    (middleware witnessCfg0 { routeFound := true, reqOK := true, respOK := fun st _ _ => st == 200 } ops).client.seen = ⟨200, []⟩ ∧
+    (middleware witnessCfg0 { routeFound := true, reqOK := true, respOK := fun st _ _ => st == 200 } ops).client.panicked = true ∧
+    (middleware witnessCfg0 { routeFound := true, reqOK := true, respOK := fun st _ _ => st != 200 } ops).client.seen = ⟨500, "server error\n".toList⟩ ∧
+    meetsTB (middleware witnessCfg0 { routeFound := true, reqOK := true, respOK := fun st _ _ => st == 200 } ops)
+            (spec witnessCfg0 { routeFound := true, reqOK := true, respOK := fun st _ _ => st == 200 } ops) = true ∧
+    -- a refused code after the status is fixed is ignored by everybody: inside `EffCodeOK`, outside `ValidCodes`
+    badCode [.write ['1'], .writeHeader 0] = false := by
+  decide
+
+/-- **middleware_meets_spec_total.** For every configuration, environment, transport and handler — no hypothesis —
+the model of the middleware meets the specification in its total reading (`MeetsT`: where the handler fixed a status
+code net/http refuses, strict mode may also leave a dead writer with nothing on the wire). -/
+theorem middleware_meets_spec_total (cfg : Cfg) (env : Env) (ops : List Op) :
+    MeetsT (middleware cfg env ops) (spec cfg env ops) := by
+  cases hbc : badCode ops with
+  | false => exact Or.inl (middleware_meets_spec cfg env ops ((badCode_false_iff ops).mp hbc))
+  | true =>
+  cases hr : env.routeFound with
+  | false => exact Or.inl (by simp [Meets, middleware, spec, hr])
+  | true =>
+  cases hq : env.reqOK with
+  | false => exact Or.inl (by simp [Meets, middleware, spec, hr, hq])
+  | true =>
+  have h3 := (handler_iff_route_and_valid cfg env ops).mpr ⟨hr, hq⟩
+  cases hs : cfg.strict with
+  | false =>
+    obtain ⟨h1, h2⟩ := nonstrict_passes_through cfg env ops hs hr hq
+    exact Or.inl (by simp [Meets, spec, hr, hq, hs, h1, h2, h3])
+  | true =>
+    cases hpan : panics ops with
+    | true =>
+      obtain ⟨p1, _, _, _, p5, p6⟩ := strict_handler_panic_leaks_nothing cfg env ops hpan hs hr hq
+      exact Or.inl (by simp [Meets, spec, hr, hq, hs, hpan, h3, p1, p5, p6])
+    | false =>
+      have hn : NoPanic ops := (panics_false_iff ops).mp hpan
+      rcases strict_refused_code_never_delivered cfg env ops hn hbc hs hr hq with hd | ⟨d1, d2, d3, _⟩
+      · exact Or.inr ⟨by simp [spec, hr, hq, hs, hpan, hbc], hd⟩
+      · exact Or.inl (by simp [Meets, spec, hr, hq, hs, hpan, hbc, h3, d1, d2, d3])
+
+theorem meetsTB_iff (o : Outcome) (s : SpecOut) : meetsTB o s = true ↔ MeetsT o s := by
+  unfold meetsTB MeetsT
+  rw [Bool.or_eq_true, meetsB_iff, Bool.and_eq_true]
+  have hd : deadB o = true ↔ Dead o := by unfold deadB Dead; simp [and_assoc]
+  rw [hd]
 
 /-- The verdict logged in non-strict mode is the verdict on the response the client received, whenever the
 handler fixed its status itself (no Flush before the first WriteHeader/Write) — on a ResponseRecorder only for
@@ -402,30 +495,27 @@ theorem nth_outcome_depends_on_nth_request (cfg : Cfg) (pre1 pre2 post1 post2 : 
   rw [serveSeq_pointwise, serveSeq_pointwise]
   simp [hl]
 
-/-- **every_request_of_a_history_meets_spec.** For every sequence of requests
-(handlers with acceptable status codes, panicking ones included) each client receives what the property
+/-- **every_request_of_a_history_meets_spec.** For every sequence of requests — no hypothesis on the handlers:
+any codes, panics, informational responses — each client receives what the property
 prescribes for its own request: handler run iff route and request are fine, strict replacement / exact delivery,
 non-strict pass-through — also right after a request whose response was rejected or whose handler panicked. -/
-theorem every_request_of_a_history_meets_spec (cfg : Cfg) (reqs : List Req)
-    (hv : ∀ r ∈ reqs, ValidCodes r.ops) :
+theorem every_request_of_a_history_meets_spec (cfg : Cfg) (reqs : List Req) :
     MeetsSeq cfg reqs (serveSeq cfg reqs) := by
   rw [serveSeq_pointwise]
   induction reqs with
   | nil => trivial
-  | cons r rs ih =>
-    exact ⟨middleware_meets_spec cfg r.env r.ops (hv r (by simp)),
-           ih (fun x hm => hv x (List.mem_cons_of_mem _ hm))⟩
+  | cons r rs ih => exact ⟨middleware_meets_spec_total cfg r.env r.ops, ih⟩
 
 /-- a rejected response (or a panic) leaves nothing behind: the request that follows it is delivered exactly -/
 theorem valid_after_rejected_is_delivered (cfg : Cfg) (bad good : Req) (hs : cfg.strict = true)
-    (hg : ValidCodes good.ops) (hn : NoPanic good.ops)
+    (hg : EffCodeOK good.ops) (hn : NoPanic good.ops)
     (hr : good.env.routeFound = true) (hq : good.env.reqOK = true)
     (hok : respValid good.env good.ops = true) :
     ∃ o1 o2, serveSeq cfg [bad, good] = [o1, o2] ∧
       o2.client.seen = ⟨(handlerStatus good.env.server good.ops).getD 200, written good.ops⟩ ∧ o2.errCalls = [] := by
   refine ⟨_, _, by rw [serveSeq_pointwise]; rfl, ?_⟩
   have h := middleware_meets_spec cfg good.env good.ops hg
-  simp only [Meets, spec, hr, hq, hs, hok, (panics_false_iff good.ops).mpr hn] at h
+  simp only [Meets, spec, hr, hq, hs, hok, (panics_false_iff good.ops).mpr hn, (badCode_false_iff good.ops).mpr hg] at h
   exact ⟨by simpa using h.2.1, by simpa using h.2.2.1⟩
 
 /-- **concurrent_requests_do_not_interfere.** Two requests in flight at the same time, each handler against
